@@ -81,7 +81,10 @@ def fold(project: Project, module: Module, node: ast.AST, depth: int = 0, local=
             if isinstance(op, ast.NotIn):
                 return a not in b
             if isinstance(op, (ast.Is, ast.IsNot)):
-                same = (a == b) if isinstance(a, EnumMember) or isinstance(b, EnumMember) else (a is b if (a is None or b is None or isinstance(a, bool) or isinstance(b, bool)) else a == b)
+                if isinstance(a, _Sentinel) or isinstance(b, _Sentinel):
+                    same = a is b
+                else:
+                    same = (a == b) if isinstance(a, EnumMember) or isinstance(b, EnumMember) else (a is b if (a is None or b is None or isinstance(a, bool) or isinstance(b, bool)) else a == b)
                 return same if isinstance(op, ast.Is) else not same
             if isinstance(op, ast.Lt):
                 return a < b
@@ -135,6 +138,9 @@ def fold(project: Project, module: Module, node: ast.AST, depth: int = 0, local=
             raise NotConstant(ast.unparse(node))
     if isinstance(node, ast.Call):
         f = node.func
+        if isinstance(f, ast.Name) and f.id == "object" and not node.args and not node.keywords:
+            # a module-level marker `_UNSET = object()`: one distinct value per definition site
+            return _SENTINELS.setdefault(id(node), _Sentinel(getattr(node, "lineno", 0)))
         if isinstance(f, ast.Attribute) and f.attr == "copy" and not node.args:
             v = fold(project, module, f.value, depth + 1, local)
             return v.copy() if hasattr(v, "copy") else v
@@ -164,6 +170,17 @@ def fold(project: Project, module: Module, node: ast.AST, depth: int = 0, local=
                     env = {p_: fold(project, module, a_, depth + 1, local) for p_, a_ in zip(params, node.args)}
                     return fold(project, obj.module, body[0].value, depth + 1, env)
     raise NotConstant(ast.unparse(node)[:60])
+
+
+class _Sentinel:
+    def __init__(self, line):
+        self.line = line
+
+    def __repr__(self):
+        return f"<object() at line {self.line}>"
+
+
+_SENTINELS: dict = {}
 
 
 class EnumMember:
